@@ -134,6 +134,59 @@ def douglas_case(case):
             "sample": {"config": where, "cut_orders": n_orders, "cells_probed": cells_probed}}
 
 
+def wide_mask_case(case):
+    """Wider data (5..8 features): ALL masks with at most 4 used features - unevenly spaced, non-contiguous, any position.  Masked columns are
+    inert, every used column matters (a move across all cut points changes the memberships), leaves and cut points sit on the used features."""
+    d, mask, n_cuts, seed = case
+    model, X = _fit(d, mask, n_cuts, 0.1, seed)
+    used = [i for i in range(d) if mask[i]]
+    where = dict(d=d, mask=list(map(int, mask)), n_cuts=n_cuts, temperature=0.1, batch_size=None)
+    v = []
+    if [f for f, _ in model.cut_points_list_] != used or model.leaf_scores_.shape[0] != (n_cuts + 1) ** len(used):
+        v.append(violation("cut_points_not_on_the_used_features", {"features": [f for f, _ in model.cut_points_list_], "used": used}, **where))
+    base = model.predict_proba(X)
+    for f in range(d):
+        if f in used:
+            continue
+        for delta in (3.0, -1e4):
+            X2 = X.copy()
+            X2[:, f] += delta
+            if not np.array_equal(model.predict_proba(X2), base):
+                v.append(violation("masked_feature_changes_predictions", {"feature": f, "delta": delta}, **where))
+                break
+    # independent forward pass from the public attributes: soft bins of the USED columns only
+    try:
+        ref_P = _reference_forward(model, X, used, n_cuts)
+        if not np.allclose(base, ref_P, rtol=1e-9, atol=1e-12):
+            v.append(violation("memberships_not_those_of_the_used_features", {"max_abs_diff": float(np.abs(base - ref_P).max())}, **where))
+    except NotImplementedError:
+        pass
+    if not np.array_equal(model.predict(X), model.labels_):
+        v.append(violation("masked_feature_changes_predictions", {"what": "predict(X_train) differs from labels_"}, **where))
+    return {"v": _dedup(v), "nt": [case], "out": [(d, len(used))], "stats": {"evals": 1}, "sample": {"config": where}}
+
+
+def _reference_forward(model, X, used, n_cuts):
+    """softmax over leaves of sum_f (number of sorted cut points below the bin) * x_f / T - cumulative cut offsets: the documented soft binning
+    (one soft bin vector per used feature, outer product over features, softmax of the membership-weighted leaf scores)."""
+    T = model.temperature
+    bins = []
+    for (f, cuts) in model.cut_points_list_:
+        c = np.sort(np.asarray(cuts, dtype=float))
+        w = np.arange(n_cuts + 1, dtype=float)
+        b = np.concatenate([[0.0], -np.cumsum(c)])
+        logits = (X[:, [f]] * w[None, :] + b[None, :]) / T
+        logits -= logits.max(1, keepdims=True)
+        e = np.exp(logits)
+        bins.append(e / e.sum(1, keepdims=True))
+    leaf = bins[0]
+    for b in bins[1:]:
+        leaf = (leaf[:, :, None] * b[:, None, :]).reshape(len(X), -1)
+    out = leaf @ np.asarray(model.leaf_scores_, dtype=float)          # leaf memberships mix the leaf scores, then one softmax
+    out = out - out.max(1, keepdims=True)
+    return np.exp(out) / np.exp(out).sum(1, keepdims=True)
+
+
 def _dedup(v):
     seen, vs = set(), []
     for x in v:
@@ -187,7 +240,16 @@ def explorers(tier, seed):
                 if n_used <= 2:
                     for fc in CUT_MENU:
                         c2.append((d, mask, n_cuts, fc, seed))
+    c3 = []
+    for d in (5, 6, 7, 8):
+        for k in (1, 2, 3, 4):
+            for used in itertools.combinations(range(d), k):
+                if (n_c := 1) and (thorough or d <= 7 or k <= 3):
+                    c3.append((d, tuple(i in used for i in range(d)), 1 if k > 2 else 2, seed))
     return [
+        Explorer("wide_masks", "props.c15", "wide_mask_case", c3, chunk=8, floor=100,
+                 rule="d in 5..8 x ALL feature masks with <=4 used features (any spacing): cut points and leaves on the used features, masked columns inert under "
+                      "perturbation, memberships equal an independent forward pass over the used columns, predict(train) == labels_"),
         Explorer("mask_bins_cells", "props.c15", "douglas_case", c1, chunk=2, floor=30, case_timeout=900,
                  rule="d<=3 x ALL non-empty feature masks (+None) x n_cuts {1,2,3} x temperature {10,1,0.1,0.02} x ALL storage orders of the cut-point "
                       "vectors: masked columns perturbed by {1,-7.5,1e6}, (n_cuts+1)^used leaves, memberships are probability vectors, at temperature "
